@@ -67,6 +67,7 @@ type driver struct {
 	real      *realTracker
 	rejectN   atomic.Int64
 	gate      *gcGate
+	faultAt   atomic.Pointer[string] // the next creation of a table file whose path contains this fails (one shot)
 	gcMu      sync.Mutex
 	gen       map[partKey]int
 	resMu     sync.Mutex
@@ -176,7 +177,7 @@ func runHistory(idx int, dir, tier string, seed, t0 int64) *ledger {
 		opKinds[kind]++
 	}
 	d := &driver{dir: dir, L: L, plan: p, world: world, parts: map[partKey]*partState{}, bySeq: map[partKey]map[int64]int{}, arrCh: make(chan func(), 4), gate: &gcGate{}}
-	ic := &hookIC{world: world, before: d.before}
+	ic := &hookIC{world: world, before: d.before, fault: d.fault}
 	seam.NoFsync = true
 	seam.InstallKV(ic, nil)
 	seam.InstallIndexSequence(ic)
@@ -276,6 +277,8 @@ func (d *driver) runStep(s *planStep) {
 		d.count("log_sync_gc", 1)
 	case "gc":
 		d.walGC()
+	case "close":
+		d.shutdown(s)
 	case "recreate":
 		d.recreate(partKey{Shard: s.Shard, Family: s.Family})
 	case "meta":
@@ -309,7 +312,27 @@ type realTracker struct {
 	lastOp int64
 }
 
-func (d *driver) realCycle(s *planStep) {
+func (d *driver) realCycle(s *planStep) { d.trackedCycle(s, nil) }
+
+// shutdown: what databaseLifecycle.Shutdown does - stop the replicators, close the engine (flushes metadata, indexes and
+// every memory database a family still holds), close the logs - with every file-system operation imaged.
+func (d *driver) shutdown(s *planStep) {
+	d.trackedCycle(s, func() {
+		d.mgr.Stop()
+		d.n.Engine.Close()
+		if err := d.mgr.Close(); err != nil {
+			d.problem("close write ahead log: %v", err)
+		}
+	})
+	d.count("shutdowns_under_crash_imaging", 1)
+	for _, key := range d.L.Parts {
+		d.parts[key].dead.Store(true) // nothing can be appended or replicated any more
+	}
+}
+
+// trackedCycle runs a flush job of the real doFlush (run == nil) or another operation that flushes metadata, indexes
+// and family data in that order, and derives the flush records from the labels of the file-system operations.
+func (d *driver) trackedCycle(s *planStep, run func()) {
 	tr := &realTracker{recs: map[string]*flushRec{}, last: map[int]string{}}
 	mk := func(key, kind string, shard int, fam int64) {
 		tr.recs[key] = &flushRec{Kind: kind, Shard: shard, Family: fam, Cycle: s.Cycle, PersistSeq: -1, Real: true, BeginImg: -1, DoneImg: -1}
@@ -340,7 +363,11 @@ func (d *driver) realCycle(s *planStep) {
 		rec.SwitchLo = call
 	}
 	tr.lastOp = call
-	tsdb.VerifDoFlush(d.n.DB, families)
+	if run != nil {
+		run()
+	} else {
+		tsdb.VerifDoFlush(d.n.DB, families)
+	}
 	d.mu.Lock()
 	d.active = false
 	d.real = nil
@@ -368,6 +395,9 @@ func (d *driver) realCycle(s *planStep) {
 		}
 		d.L.Flushes = append(d.L.Flushes, *rec)
 		d.L.Counters["flush."+rec.Kind]++
+	}
+	if run != nil {
+		d.L.Counters["flush_cycles_run_by_the_real_doFlush"]--
 	}
 	d.L.Counters["flush_cycles_run_by_the_real_doFlush"]++
 	d.L.Counters["arrivals_at_fs_operations_of_a_flush"] += agg.Injected
@@ -461,8 +491,14 @@ func (d *driver) endFlush(rec *flushRec) {
 	}
 	rec.DoneTick = d.nextTick()
 	rec.DoneImg = d.world.Count()
-	if rec.Err != "" {
+	if rec.Err != "" && !rec.Fault {
 		d.problem("%s flush failed: %s", rec.Kind, rec.Err)
+	}
+	if rec.Fault {
+		if rec.Err == "" {
+			d.problem("the injected table file fault did not make the %s flush fail", rec.Kind)
+		}
+		d.count("data_flushes_failed_by_an_injected_table_file_fault", 1)
 	}
 	d.mu.Lock()
 	d.L.Flushes = append(d.L.Flushes, *rec)
@@ -479,6 +515,12 @@ func (d *driver) flushData(s *planStep) {
 	shard, _ := d.n.DB.GetShard(models.ShardID(s.Shard))
 	doFlush := func() *flushRec {
 		rec := d.beginFlush(s)
+		if s.Fault {
+			// a transient fault: the table file of this flush cannot be created (the node keeps running)
+			rec.Fault = true
+			m := segmentPath(s.Shard, s.Family)
+			d.faultAt.Store(&m)
+		}
 		if err := real.Flush(); err != nil {
 			rec.Err = err.Error()
 		}
@@ -600,6 +642,18 @@ func (d *driver) racingPossible(rows []rowRec) bool {
 		}
 	}
 	return true
+}
+
+// fault answers whether the operation fails instead of running (injected table file fault).
+func (d *driver) fault(label string) error {
+	m := d.faultAt.Load()
+	if m == nil || !strings.HasPrefix(label, "create ") || !strings.Contains(label, *m) {
+		return nil
+	}
+	if !d.faultAt.CompareAndSwap(m, nil) {
+		return nil
+	}
+	return fmt.Errorf("injected fault: cannot create %s", label[len("create "):])
 }
 
 // before runs ahead of every seam operation, outside the world lock.
